@@ -20,7 +20,7 @@ PROP = "C12"
 NEED_JSONSCHEMA = True
 SHARDS = {"quick": 8, "thorough": 16}
 TIME_CAP = {"quick": 75, "thorough": 900}
-REQUIRED = ["lsp_deserialization_checks", "lsp_serialization_checks", "graphs", "d_agree_accept", "d_agree_reject", "d_conv_rejects", "d_value_error_caught", "d_value_error_propagates",
+REQUIRED = ["recfield_checks", "lsp_deserialization_checks", "lsp_serialization_checks", "graphs", "d_agree_accept", "d_agree_reject", "d_conv_rejects", "d_value_error_caught", "d_value_error_propagates",
             "multi_later_alt_wins", "multi_first_wins_overlap", "multi_all_rejected", "s_agree", "schema_des_equal", "schema_ser_equal",
             "schema_own_annotations_merged", "unsupported_expected", "locality_object_field", "dyn_through_container", "dyn_through_ml",
             "field_conv_applied", "sub_conv_applied", "placement:reg", "placement:def", "placement:dyn", "placement:dyn_noreg",
@@ -1360,6 +1360,81 @@ def family_lsp(env, g):
         prog.unload()
 
 
+RECFIELD_SRC = """
+from apischema.metadata import conversion as conversion_md
+
+def rn_to_pair(n: "RNode") -> Tuple[str, "RNode"]:
+    return ("t", n)
+
+def rn_from_pair(p: Tuple[str, "RNode"]) -> "RNode":
+    return p[1]
+
+@dataclass
+class RNode:
+    v: int
+    kids: List["RNode"] = field(default_factory=list)
+    tagged: {WRAP}["RNode"] = field(default_factory={FACTORY}, metadata=conversion_md(deserialization=rn_from_pair, serialization=rn_to_pair))
+CLS = {{"RNode": RNode}}
+"""
+
+
+def family_recfield(env, g):
+    """a recursive class with a field whose field-level conversion re-enters the class (RNode <-> Tuple[str, RNode]): the conversion
+    applies at that field, at every depth, and nowhere else (direct expectations)"""
+    (apischema, cache, deserialization_method, serialization_method, converters, deserialization_schema, serialization_schema) = api()
+
+    rng = env.rng
+    wrap, factory = rng.choice([("List", "list"), ("List", "list"), ("Optional", "lambda: None")])
+    try:
+        prog = load_source(PRELUDE12 + RECFIELD_SRC.replace("{WRAP}", wrap).replace("{FACTORY}", factory).replace("{{", "{").replace("}}", "}"))
+    except Exception as e:
+        env.count("program_load_failed:" + type(e).__name__)
+        return
+    mod = prog.module
+    RNode = mod.RNode
+    is_list = wrap == "List"
+
+    def leaf(v):
+        return {"v": v, "kids": [], "tagged": [] if is_list else None}
+
+    def obj(d):
+        t = d["tagged"]
+        return RNode(d["v"], [obj(k) for k in d["kids"]], ([obj(p[1]) for p in t] if is_list else (None if t is None else obj(t[1]))))
+
+    def tag(d):
+        return [["t", d]] if is_list else ["t", d]
+
+    try:
+        cache.reset()
+        feat = {"family": "recfield", "wrap": wrap}
+        wit0 = {"program": prog.source, "family": "recfield"}
+        deep = {"v": 1, "kids": [{**leaf(2), "tagged": tag(leaf(3))}], "tagged": tag({**leaf(4), "kids": [leaf(5)], "tagged": tag(leaf(6))})}
+        good = [leaf(0), {**leaf(1), "tagged": tag(leaf(2))}, deep]
+        for d in good:
+            o = harness.call(apischema.deserialize, RNode, copy.deepcopy(d))
+            env.count("recfield_checks")
+            env.case("recfield", wrap, "des", repr(d)[:80])
+            if not (o.kind == "ok" and o.value == obj(d)):
+                env.violation({**feat, "kind": "false-reject" if o.kind != "ok" else "value", "op": "deserialize"}, {**wit0, "datum": d, "observed": o.brief()})
+                continue
+            so = harness.call(apischema.serialize, RNode, obj(d))
+            env.count("recfield_checks")
+            if not (so.kind == "ok" and canon(so.value) == canon(d)):
+                env.violation({**feat, "kind": "serialized-value", "op": "serialize"}, {**wit0, "datum": d, "observed": so.brief()})
+        # the pair form is required at `tagged` (a plain object there is rejected) and refused at `kids`
+        bad = [{**leaf(1), "tagged": ([leaf(2)] if is_list else leaf(2))}, {**leaf(1), "kids": [["t", leaf(2)]]},
+               {**leaf(1), "kids": [{**leaf(2), "tagged": ([leaf(3)] if is_list else leaf(3))}]}]
+        for d in bad:
+            o = harness.call(apischema.deserialize, RNode, copy.deepcopy(d))
+            env.count("recfield_checks")
+            env.case("recfield", wrap, "bad", repr(d)[:80])
+            if o.kind != "verr":
+                env.violation({**feat, "kind": "false-accept" if o.kind == "ok" else "exception", "exc": o.exc, "op": "deserialize"}, {**wit0, "datum": d, "observed": o.brief()})
+    finally:
+        cleanup(mod)
+        prog.unload()
+
+
 # ---------------------------------------------------------------- driver
 def one_graph(env, j, ndata):
     rng = env.rng
@@ -1399,7 +1474,7 @@ def one_graph(env, j, ndata):
         prog.unload()
 
 
-PARTS = ("graph", "inherit", "identity", "recursive", "lsp")
+PARTS = ("graph", "inherit", "identity", "recursive", "lsp", "recfield")
 
 
 def run_part(env, part, j, ndata=22):
@@ -1413,7 +1488,7 @@ def run_part(env, part, j, ndata=22):
         one_graph(env, j, ndata)
     else:
         g = gen_types.Gen(env.rng, max_depth=2, recursion=False)
-        {"inherit": family_inherit, "identity": family_identity, "recursive": family_recursive, "lsp": family_lsp}[part](env, g)
+        {"inherit": family_inherit, "identity": family_identity, "recursive": family_recursive, "lsp": family_lsp, "recfield": family_recfield}[part](env, g)
 
 
 def tag_origin(env):
@@ -1436,6 +1511,8 @@ def run(env):
             run_part(env, PARTS[1 + (j % 6) // 2], j)
         if j % 24 == 1:
             run_part(env, "lsp", j)
+        if j % 24 == 13:
+            run_part(env, "recfield", j)
 
 
 def finish_coverage(cov, counters, tier):
